@@ -130,6 +130,12 @@ QUERIES = [
     ("SELECT account, vp_yield('x', count(*)) AS n, sum(number) AS total FROM #postings GROUP BY account ORDER BY account", None),
     ("SELECT currency, sum(number) AS total, vp_yield('x', count(number)) AS n FROM #postings WHERE number > 0 GROUP BY currency "
      "HAVING vp_yield('x', count(*)) > 0 ORDER BY currency", None),
+    # statements with FROM qualifiers (the table is summarised per statement) next to unqualified ones
+    ("SELECT vp_yield('x', lineno), account, position FROM CLOSE ON 2020-03-01", None),
+    ("SELECT account, vp_yield('x', count(*)) AS n FROM OPEN ON 2020-01-15 CLOSE ON 2020-08-01 CLEAR GROUP BY account ORDER BY account", None),
+    # the accounts table and the account look-up functions, also for names that were never opened
+    ("SELECT account, vp_yield('x', length(account)), open FROM #accounts", None),
+    ("SELECT DISTINCT parent(account), open_date(parent(account)), vp_yield('x', lineno) * 0 FROM #postings", None),
 ]
 OUTPUT_PHASE = (8, 9)
 
@@ -169,7 +175,7 @@ def run(ctx):
         before = audit_fingerprint(shared)
         pairs = list(itertools.product(range(len(QUERIES)), repeat=2))
         if not ctx.thorough():
-            pairs = [p for n, p in enumerate(rng.shuffle(pairs)) if n < 12] + [(0, 0), (0, 3), (3, 3), (8, 8), (9, 9), (8, 9), (0, 1)]
+            pairs = [p for n, p in enumerate(rng.shuffle(pairs)) if n < 12] + [(0, 0), (0, 3), (3, 3), (8, 8), (9, 9), (8, 9), (0, 1), (10, 1), (10, 2), (11, 2), (12, 13), (12, 12)]
         for qa, qb in pairs:
             queries = [QUERIES[qa][0], QUERIES[qb][0]]
             params = [QUERIES[qa][1], QUERIES[qb][1]]
